@@ -77,7 +77,7 @@ pub fn drive(args: &[String]) {
     let mut sink = Sink::create(&out);
     let mut rng = rng(4);
     let mut corpus: Vec<PartialDSym> = syms_from_files(&files).into_iter().filter(|s| s.is_connected()).collect();
-    corpus.extend(generated_2d(maxgen).into_iter().filter(|s| s.size() >= 4));
+    corpus.extend(generated_2d_reach(maxgen, 7, 200, &mut rng).into_iter().filter(|s| s.size() >= 4));
     let t3 = sets_with_branching(3, 3, &[1, 2, 3], 3, &mut rng);
     corpus.extend(t3);
     let mut prev: Option<PartialDSym> = None;
